@@ -40,6 +40,21 @@ func c06Search(mgr *Manager, qs string) ([]string, error) {
 	return ids, err
 }
 
+// c06Import imports four packets: two of new conversations (new streams) and two that continue
+// conversations of the first import (more data for existing streams).
+func c06Import(t *testing.T, mgr *Manager, at time.Time, n int) {
+	pcaps, err := writePcaps(mgr.PcapDir, []pcapOverIPPacket{
+		makeUDPPacket(fmt.Sprintf("1.2.3.4:%d", 100+n), "4.3.2.1:4321", at.Add(time.Second*0), "bar"),
+		makeUDPPacket(fmt.Sprintf("1.2.3.4:%d", 101+n), "4.3.2.1:80", at.Add(time.Second*1), "foo"),
+		makeUDPPacket("1.2.3.4:1", "4.3.2.1:4321", at.Add(time.Second*2), "baz"),
+		makeUDPPacket("1.2.3.4:3", "4.3.2.1:4321", at.Add(time.Second*3), "foo"),
+	})
+	if err != nil {
+		t.Fatalf("writePcaps: %v", err)
+	}
+	mgr.ImportPcaps(pcaps)
+}
+
 func TestC06FreshStandin(t *testing.T) {
 	nHist, _ := strconv.Atoi(os.Getenv("C06_HISTORIES"))
 	if nHist == 0 {
@@ -67,7 +82,7 @@ func TestC06FreshStandin(t *testing.T) {
 		}
 	}
 	// definitions: plain filters, payload filters, references to other tags (main and sub-query)
-	plain := []string{"cport:1,2", "cport:3:", "sport:4321", "cdata:ba", "cdata:foo", "ftime:1000:", "-cport:2", "id:0:5"}
+	plain := []string{"cport:1,2", "cport:3:", "sport:4321", "cdata:ba", "cdata:foo", "ftime:1000:", "-cport:2", "id:0:5", "id:2:", "sport:80", "cbytes:4:", ""}
 	for h := 0; h < nHist; h++ {
 		d := makeTempdirs(t)
 		mgr := makeManager(t, d)
@@ -136,8 +151,8 @@ func TestC06FreshStandin(t *testing.T) {
 			case 4:
 				if nStreams < 12 {
 					// more packets: new streams, and more data for the conversations that exist already
-					importSomePackets(t, mgr, t1.Add(time.Duration(nStreams)*time.Minute), "")
-					nStreams += 4
+					c06Import(t, mgr, t1.Add(time.Duration(nStreams)*time.Second), nStreams)
+					nStreams += 2
 					ops = append(ops, "import")
 				}
 			default:
